@@ -85,7 +85,7 @@ func (x *xorshift) next() uint64 {
 
 func (x *xorshift) intn(n int) int { return int(x.next() % uint64(n)) }
 
-var racePool = []string{"alice", "bob", "carol", "dave"}
+var racePool = []string{"alice", "bobby", "carol", "david"} // v1 validates client ids: 5 characters at least
 
 func genRace(t *rapid.T) RaceCase {
 	if rapid.IntRange(0, 5).Draw(t, "target") == 0 {
@@ -390,10 +390,11 @@ func tokenRound(c RaceCase) (res roundRes) {
 	}
 	const nIDs = 48
 	ctxOf := func(i int) tokens.TokenContext {
-		return tokens.TokenContext{ClientID: []byte(c.IDs[i%len(c.IDs)]), AdditionalContext: []byte{byte(i % 2)}}
+		// a context is a client id (a non-empty AdditionalContext, the former zone, would replace it)
+		return tokens.TokenContext{ClientID: []byte(c.IDs[i%len(c.IDs)])}
 	}
 	type slot struct{ id, ctx int }
-	nctx := 2 * len(c.IDs)
+	nctx := len(c.IDs)
 	dataOf := func(saver int, s slot) []byte {
 		return []byte(fmt.Sprintf("value of id %d context %d saved by %d", s.id, s.ctx, saver))
 	}
@@ -698,6 +699,9 @@ func TestV1Race(t *testing.T) {
 			var hs []string
 			for _, r := range results {
 				hs = append(hs, r.History...)
+			}
+			for _, v := range vs {
+				t.Logf("violation %s: %.700s", v.Sig, v.Msg)
 			}
 			if len(hs) > 0 {
 				R.Note("TestV1Race: history of the failing chunk: %s", strings.Join(hs, " | "))
